@@ -4,7 +4,9 @@
 package pktgen
 
 import (
+	"os"
 	"reflect"
+	"regexp"
 	"sort"
 
 	"go.minekube.com/gate/pkg/edition/java/proto/state"
@@ -101,4 +103,22 @@ func (r Reg) NewPacket() proto.Packet {
 
 func (r Reg) Ctx() *proto.PacketContext {
 	return &proto.PacketContext{Direction: r.Dir, Protocol: r.Proto, PacketID: r.ID}
+}
+
+// FragmentNames reads the names of the types the translator put into the layout fragment from the
+// regenerated coq/Gen/PacketLayouts.v (only used to decide which cases carry field dumps / bodies and
+// for the coverage numbers in evidence). ok=false when the file is not there.
+func FragmentNames() (map[string]bool, bool) {
+	for _, p := range []string{"../coq/Gen/PacketLayouts.v", "coq/Gen/PacketLayouts.v", "/verif/coq/Gen/PacketLayouts.v"} {
+		b, err := os.ReadFile(p)
+		if err != nil {
+			continue
+		}
+		out := map[string]bool{}
+		for _, m := range regexp.MustCompile(`Fragment "([^"]+)"`).FindAllStringSubmatch(string(b), -1) {
+			out[m[1]] = true
+		}
+		return out, true
+	}
+	return nil, false
 }
